@@ -38,13 +38,13 @@ def i32Pattern (v : Int) : Nat :=
 
 /-- `NumberItem::print` for the based kinds (fix 'every digit' in /repo) and `Raw` -/
 def printBased (v : F) (t : NumType) : String :=
-  let i : Int := Num.toInt (Num.trunc v)   -- exact for |v| < 2^63; larger magnitudes: see radixOfLarge
+  let i : Int := Num.truncInt v   -- every digit (format_radix in /repo); negative values: 32-bit pattern
   let nonneg := !(Num.lt v (Num.ofInt 0))
   match t with
   | .binary => "0b" ++ String.ofList (radixDigits 2 (if nonneg then i.toNat else i32Pattern i))
   | .octal => "0o" ++ String.ofList (radixDigits 8 (if nonneg then i.toNat else i32Pattern i))
   | .hex => "0x" ++ String.ofList (radixDigits 16 (if nonneg then i.toNat else i32Pattern i))
-  | _ => toString i
+  | _ => toString (Num.toInt v)      -- Raw: `as i64`
 
 def replaceStr (s pat rep : String) : String := String.ofList (strReplaceL s.toList pat.toList rep.toList)
 where
